@@ -125,6 +125,13 @@ def mean_first_layout(prog, cname, bounds_fn_name, bounds_key):
     cb, bf = prog.method(cname, bounds_fn_name)
     Lb = L if bf is init else Layouts(bf, prog, cb.module, cb)
     b = Lb.state.get(bounds_key)
+    if b is None:
+        # the bounds handed to the optimiser, wherever they are spelled
+        for n in ast.walk(bf):
+            if isinstance(n, ast.Call):
+                for kw in n.keywords:
+                    if kw.arg == "bounds":
+                        b = Lb.layout_of(kw.value, Lb.rz.stmt_of(n))
     if b != (("splice", "self.mean.bounds"), ("splice", "self.cov.bounds")):
         why.append(f"bounds `{bounds_key}` in {bounds_fn_name} are {show(b)}, not the mean's bounds followed by the covariance's")
     return ci, init, why
